@@ -7,6 +7,7 @@
 #include <stdio.h>
 #include <sys/mman.h>
 #include <new>
+#include <unistd.h>
 
 namespace sim {
 
@@ -97,12 +98,27 @@ bool memIsLive(const void* p, size_t n) {
   return true;
 }
 
+// innermost (possibly inlined) function containing pc, via addr2line on our own executable; cached; used only when a violation is reported
+static const char* symbolize(void* pc) {
+  static struct { void* pc; char name[200]; } cache[64]; static int ncache = 0;
+  for (int i = 0; i < ncache; ++i) if (cache[i].pc == pc) return cache[i].name;
+  char cmd[128]; snprintf(cmd, sizeof cmd, "addr2line -f -C -i -e /proc/%d/exe %p 2>/dev/null", (int)getpid(), (void*)((char*)pc - 1));
+  char line[400] = "?";
+  g_host_depth_export++;
+  FILE* f = popen(cmd, "r");
+  if (f) { if (!fgets(line, sizeof line, f)) strcpy(line, "?"); pclose(f); }
+  g_host_depth_export--;
+  char* e = strpbrk(line, "(\n"); if (e) *e = 0;
+  if (ncache < 64) { cache[ncache].pc = pc; snprintf(cache[ncache].name, sizeof cache[ncache].name, "%s", line); return cache[ncache++].name; }
+  static char last[200]; snprintf(last, sizeof last, "%s", line); return last;
+}
+
 void memAccess(const void* p, size_t n, bool write, void* pc) {
   if (!memIsArena(p) || !inRun()) return;
   if (memIsLive(p, n)) return;
   size_t off = (const char*)p - ARENA; unsigned char s = SHADOW[off >> 3];
   char d[200]; describe(p, d, sizeof d);
-  const char* cls = (s == SH_FREED) ? "mem/use_after_free" : "mem/out_of_bounds";
+  char cls[256]; snprintf(cls, sizeof cls, "%s@%.200s", (s == SH_FREED) ? "mem/use_after_free" : "mem/out_of_bounds", symbolize(pc));
   fail(cls, "%s of %zu bytes at %p (%s) pc=%p task=%d", write ? "write" : "read", n, p, d, pc, self());
 }
 
